@@ -268,6 +268,8 @@ def arr_getattr(I, a: Arr, attr, node):
         return 1
     if attr == "astype":
         def astype(I, t=None, **kw):
+            if hasattr(t, "pyvc_astype"):       # a contract's own model of a conversion (e.g. the dtype of a ghost dataset)
+                return t.pyvc_astype(I, a)
             tn = dtype_name(t)
             if tn in ("int", "int64", "int32", "uint64", "uint32") and a.kind == "int":
                 return Arr(a.n, a.at, "int", tn if tn != "int" else "int64")
